@@ -550,6 +550,9 @@ pub enum NOp {
 }
 
 pub struct RelayCfg {
+	/// the node first catches up with the first three fifths of the winning chain the way the sync
+	/// loop does (header sync, then blocks requested by hash)
+	pub sync_prefix: bool,
 	/// the node still believes it is syncing (no orphan-parent requests, no hooks)
 	pub syncing: bool,
 	pub n_honest: usize,
@@ -757,6 +760,89 @@ impl<'w> Relay<'w> {
 				return Err(self.v("honest-peer-dropped", format!("the connection of honest peer {} was closed or the peer banned (alive={} banned={})", p.id_slot(), p.alive, self.node.peers.is_banned(p.addr))));
 			}
 		}
+		Ok(())
+	}
+
+	/// The node starts far behind and catches up the way the sync loop makes it: HeaderSync status and
+	/// `Headers` messages in chunks, then BodySync status and blocks requested by hash through the real
+	/// `Peer::send_block_request(.., SYNC)` (the TrackingAdapter hands the SYNC option to the adapter
+	/// when the block arrives), answered out of order and not always.
+	fn sync_prefix(&mut self) -> Result<(), Violation> {
+		use grin_chain::SyncStatus;
+		let world = self.world;
+		let winner = world.winner();
+		let path: Vec<usize> = world.path_to(winner).into_iter().filter(|i| *i != 0).collect();
+		let (wtd, wh) = (world.blocks[winner].total_difficulty, world.blocks[winner].height);
+		let hh = self.node.chain.header_head().map_err(|e| self.v("digest", format!("{:?}", e)))?;
+		self.node.sync.update(SyncStatus::HeaderSync {
+			sync_head: hh,
+			highest_height: wh,
+			highest_diff: Difficulty::from_num(wtd),
+		});
+		let headers: Vec<BlockHeader> = path.iter().map(|i| world.blocks[*i].block.header.clone()).collect();
+		let chunk = *self.rng.pick(&[5usize, 32, 33, 512]);
+		self.step += 1;
+		self.log.push(format!("step {} header sync in chunks of {}", self.step, chunk));
+		for c in headers.chunks(chunk) {
+			self.peers[0].send(Type::Headers, Headers { headers: c.to_vec() });
+			self.sync_barrier(Some(0))?;
+		}
+		let got = self.node.chain.header_head().map(|t| t.last_block_h).ok();
+		if got != Some(world.blocks[winner].hash) {
+			return Err(self.v("header-sync-failed", format!("after the Headers messages of the winning chain the header head is {:?}, not {}", got, world.blocks[winner].hash)));
+		}
+		self.probe("headers_synced_through_adapter");
+		self.node.sync.update(SyncStatus::BodySync { current_height: 0, highest_height: wh });
+		let upto = (path.len() * 3 / 5).max(1);
+		let mut pending: Vec<usize> = path[..upto].to_vec();
+		for _round in 0..60 {
+			pending.retain(|i| !self.accepted.contains(i));
+			if pending.is_empty() {
+				break;
+			}
+			self.step += 1;
+			// body sync asks for the next few blocks of the header chain, spread over its peers
+			let batch: Vec<usize> = pending.iter().take(6).cloned().collect();
+			let mut asked: Vec<(usize, usize)> = vec![];
+			for id in &batch {
+				let slot = self.rng.usize_below(self.peers.len().min(2).max(1));
+				if Some(slot) == self.byz_slot || !self.peers[slot].alive {
+					continue;
+				}
+				if let Some(p) = self.peers[slot].node_peer.clone() {
+					if p.send_block_request(world.blocks[*id].hash, grin_chain::Options::SYNC).is_ok() {
+						asked.push((slot, *id));
+					}
+				}
+			}
+			self.sync_barrier(None)?;
+			let mut answers: Vec<(usize, usize)> = vec![];
+			for p in self.peers.iter_mut() {
+				for m in std::mem::take(&mut p.inbox) {
+					if let Message::GetBlock(h) = m {
+						if let Some(id) = world.id_of_hash(&h) {
+							answers.push((p.slot, id));
+						}
+					}
+				}
+			}
+			self.log.push(format!("step {} body sync asked {:?}, requests seen {:?}", self.step, asked, answers));
+			self.rng.shuffle(&mut answers);
+			for (slot, id) in answers {
+				if self.rng.chance(self.ignore_pct, 100) {
+					self.fault("sync_request_left_unanswered");
+					continue;
+				}
+				self.probe("block_delivered_on_sync_request");
+				self.send_block(slot, id)?;
+				self.serve_requests()?;
+			}
+		}
+		pending.retain(|i| !self.accepted.contains(i));
+		if !pending.is_empty() {
+			return Err(self.v("body-sync-stalled", format!("blocks {:?} requested by hash and delivered were not accepted within 60 rounds", pending)));
+		}
+		self.node.sync.update(SyncStatus::NoSync);
 		Ok(())
 	}
 
@@ -1100,7 +1186,15 @@ pub fn run_relay(world: &World, prop: &str, cfg: &RelayCfg, ops: &[NOp], seed: u
 	};
 	sim.accepted.insert(0);
 	let mut violation = None;
+	if cfg.sync_prefix {
+		if let Err(v) = sim.sync_prefix() {
+			violation = Some((0, v));
+		}
+	}
 	for (i, op) in ops.iter().enumerate() {
+		if violation.is_some() {
+			break;
+		}
 		// the byzantine peer comes back under a new address once it has been banned
 		if let NOp::Bad { p, .. } | NOp::BadHeader { p, .. } = op {
 			if !sim.peers[*p].alive {
@@ -1218,6 +1312,7 @@ pub fn relay_case(property: &str, tier: &str, seed: u64, case: u64) -> CaseResul
 	for run in 0..k {
 		let mut rr = srng.fork(&format!("run{}", run));
 		let cfg = RelayCfg {
+			sync_prefix: run % 4 == 2,
 			syncing: run % 4 == 3,
 			n_honest: 2 + rr.usize_below(2),
 			byz: !world.bad.is_empty(),
@@ -1251,7 +1346,7 @@ pub fn relay_case(property: &str, tier: &str, seed: u64, case: u64) -> CaseResul
 		if let Some((idx, mut v)) = out.violation {
 			v.replay = json!({
 				"engine": "netsim", "mode": "relay", "property": property, "tier": tier, "case_seed": seed,
-				"n_honest": cfg.n_honest, "byz": cfg.byz, "syncing": cfg.syncing, "ignore_pct": cfg.ignore_pct, "run": run,
+				"n_honest": cfg.n_honest, "byz": cfg.byz, "syncing": cfg.syncing, "sync_prefix": cfg.sync_prefix, "ignore_pct": cfg.ignore_pct, "run": run,
 				"failed_at_op": idx, "ops": serde_json::to_value(&ops).unwrap_or(Value::Null),
 				"log_tail": out.log.iter().rev().take(12).cloned().collect::<Vec<_>>(),
 			});
@@ -1282,6 +1377,7 @@ pub fn replay(rp: &Value) -> Result<Option<Violation>, String> {
 			let mut world = crate::checks::build_world_with(&property, &tier, seed, net_world_tweak)?;
 			let ops: Vec<NOp> = serde_json::from_value(rp["ops"].clone()).map_err(|e| e.to_string())?;
 			let cfg = RelayCfg {
+				sync_prefix: rp["sync_prefix"].as_bool().unwrap_or(false),
 				syncing: rp["syncing"].as_bool().unwrap_or(false),
 				n_honest: rp["n_honest"].as_u64().unwrap_or(2) as usize,
 				byz: rp["byz"].as_bool().unwrap_or(false),
@@ -1293,6 +1389,7 @@ pub fn replay(rp: &Value) -> Result<Option<Violation>, String> {
 			for r in 0..=run {
 				let mut rr = srng.fork(&format!("run{}", r));
 				let c = RelayCfg {
+					sync_prefix: false,
 					syncing: false,
 					n_honest: 2 + rr.usize_below(2),
 					byz: !world.bad.is_empty(),
